@@ -118,6 +118,10 @@ func (x *Exec) frameDo(st *State, where string, assumeOnly map[string]bool) {
 			ds = append(ds, desig{heap: hn, all: true})
 			continue
 		}
+		if hn, ok := x.allFieldDesig(loc, ct.Pkg); ok {
+			ds = append(ds, desig{heap: hn, all: true})
+			continue
+		}
 		if i := strings.Index(loc, "("); i > 0 && strings.HasSuffix(loc, ")") {
 			if g, ok := x.P.Ghosts[loc[:i]]; ok {
 				inner := strings.TrimSpace(loc[i+1 : len(loc)-1])
